@@ -1,13 +1,18 @@
-import NettyVerif.Model.Http
-/-! # C15 — HTTP server codec: one well-formed response per request, in order -/
+import NettyVerif.Proofs.Http
+/-! # C15 — HTTP server codec: one well-formed response per request, in order
+
+Model: Model/Http.lean (the repaired codec: unread bodies drained, Flush only flushes, the adapter
+finishes the response, no chunked framing for HTTP/1.0). The response parser is a standard one
+(validated against net/http.ReadResponse by the tie on every generated wire). -/
 namespace NettyVerif.C15
 open NettyVerif.Http
 
 /-! ## the request loop -/
 
-/-- **every request is parsed at its true start**: with the repaired loop (the rest of the body is
-    drained after the handler returns) ReadRequest starts exactly where each request starts,
-    whatever part of the body each handler read — for every sequence of requests -/
+/-- **every request is parsed at its true start**: the rest of the body is drained after the
+    handler returns, so ReadRequest starts exactly where each request starts whatever part of the
+    body each handler read — for every sequence of requests; the loop stops after the first
+    request that closes the connection -/
 theorem C15_requests_aligned (l : List (Req × Nat × Bool)) (pos : Nat) :
     requestStarts true l pos = trueStarts l pos := by
   induction l generalizing pos with
@@ -22,7 +27,150 @@ theorem C15_pinned_unread_body_misaligns :
     requestStarts false [({ headLen := 40, bodyLen := 5, close := false }, 0, false), ({ headLen := 30, bodyLen := 0, close := false }, 0, false)] 0 = [0, 40] ∧
     trueStarts [({ headLen := 40, bodyLen := 5, close := false }, 0, false), ({ headLen := 30, bodyLen := 0, close := false }, 0, false)] 0 = [0, 45] := by decide
 
+/-! ## one response per request, read back as produced -/
+
+/-- **the response is what the handler produced**: for every handler program (any headers, any
+    status, any number and size of writes, Flush anywhere and any number of times), with an
+    explicit Content-Length — if any — equal to what was written: a standard parser reads from the
+    emitted bytes exactly the status, the headers and the body the handler produced; it stops
+    exactly at the end of a self-delimiting response (chunked or with Content-Length), so whatever
+    follows is the next response; otherwise the body runs to the end of the stream. The connection
+    is marked to be closed iff the request asked for it or the response is not self-delimiting, at
+    a point where every byte has been flushed; nothing crashes. -/
+theorem C15_response_roundtrip (minor : Nat) (hm : minor ≤ 1) (reqClose : Bool) (prog : List HOp) (hp : ∀ o ∈ prog, opOK o)
+    (hcons : Consistent (serveOne minor reqClose prog)) :
+    (selfDelimiting (serveOne minor reqClose prog) = true →
+      ∀ next, parseResp ((serveOne minor reqClose prog).out ++ next) = some (view (serveOne minor reqClose prog), next)) ∧
+    (selfDelimiting (serveOne minor reqClose prog) = false →
+      parseResp (serveOne minor reqClose prog).out = some (view (serveOne minor reqClose prog), [])) ∧
+    (serveOne minor reqClose prog).markedClose = (reqClose || !selfDelimiting (serveOne minor reqClose prog)) ∧
+    (serveOne minor reqClose prog).flushed = (serveOne minor reqClose prog).out.length ∧
+    (serveOne minor reqClose prog).finished = true ∧ (serveOne minor reqClose prog).crashed = false := by
+  have hinv := inv_fold prog hp _ (inv_init minor hm reqClose)
+  have hrc := (fold_reqClose prog { minor := minor, reqClose := reqClose }).1
+  have := finish_roundtrip _ hinv hcons
+  simp only [hrc] at this
+  exact this
+
+def payload : HOp → Bytes
+  | .write b => b
+  | _ => []
+
+theorem op_body (w : RW) (o : HOp) (hf : w.finished = false) :
+    (w.op o).body = w.body ++ payload o ∧ (w.op o).finished = false := by
+  cases o with
+  | setHeader k v => simp [RW.op, payload, hf]
+  | writeHeader c =>
+    simp only [RW.op, RW.doHeader]
+    by_cases hw : w.wroteHeader = true <;> simp [hw, payload, hf]
+  | write b =>
+    have : (w.doHeader 200).finished = false ∧ (w.doHeader 200).body = w.body := by unfold RW.doHeader; split <;> simp [hf]
+    simp [RW.op, this.1, this.2, payload]
+  | flush =>
+    have : (w.doHeader 200).finished = false ∧ (w.doHeader 200).body = w.body := by unfold RW.doHeader; split <;> simp [hf]
+    simp [RW.op, hf, this.1, this.2, payload]
+
+/-- **the body is everything the handler wrote**, in order — whatever else it did in between -/
+theorem C15_body_is_what_was_written (minor : Nat) (c : Bool) (prog : List HOp) :
+    (serveOne minor c prog).body = (prog.map payload).flatten := by
+  have key : ∀ (prog : List HOp) (w : RW), w.finished = false →
+      (prog.foldl RW.op w).body = w.body ++ (prog.map payload).flatten ∧ (prog.foldl RW.op w).finished = false := by
+    intro prog
+    induction prog with
+    | nil => intro w h; simp [h]
+    | cons o rest ih =>
+      intro w h
+      have h1 := op_body w o h
+      have h2 := ih (w.op o) h1.2
+      simp only [List.foldl_cons, List.map_cons, List.flatten_cons]
+      rw [h2.1, h1.1]
+      exact ⟨by simp [List.append_assoc], h2.2⟩
+  have h := key prog { minor := minor, reqClose := c } rfl
+  have hfin : ∀ w : RW, w.finished = false → w.finish.body = w.body := by
+    intro w hw
+    unfold RW.finish RW.doHeader
+    simp only [hw, Bool.false_eq_true, if_false]
+    split <;> rfl
+  unfold serveOne
+  rw [hfin _ h.2, h.1]
+  simp
+
+/-- **Flush is transparent**: once the header is out, Flush changes nothing but the amount flushed;
+    before that it sends the header with status 200, exactly like the first Write would -/
+theorem C15_flush_transparent (w : RW) (hf : w.finished = false) :
+    (w.op .flush).out = (w.doHeader 200).out ∧ (w.op .flush).body = w.body ∧ (w.op .flush).sent = (w.doHeader 200).sent ∧
+    (w.op .flush).status = (w.doHeader 200).status ∧ (w.op .flush).flushed = (w.op .flush).out.length ∧
+    (w.wroteHeader = true → (w.op .flush).out = w.out ∧ (w.op .flush).status = w.status) := by
+  have hb : (w.doHeader 200).body = w.body := by unfold RW.doHeader; split <;> rfl
+  refine ⟨by simp [RW.op, hf], by simp [RW.op, hf, hb], by simp [RW.op, hf], by simp [RW.op, hf], by simp [RW.op, hf], ?_⟩
+  intro hw
+  simp [RW.op, hf, RW.doHeader, hw]
+
+/-- **pipelining**: responses that are self-delimiting and do not close the connection are read
+    back one after the other, in order, from the concatenated wire -/
+def parseN : Nat → Bytes → Option (List Resp × Bytes)
+  | 0, bs => some ([], bs)
+  | k+1, bs => match parseResp bs with
+    | none => none
+    | some (r, rest) => (parseN k rest).map (fun (rs, r') => (r :: rs, r'))
+
+theorem C15_pipelined_in_order (minor : Nat) (hm : minor ≤ 1) (progs : List (List HOp))
+    (hp : ∀ p ∈ progs, (∀ o ∈ p, opOK o) ∧ Consistent (serveOne minor false p) ∧ selfDelimiting (serveOne minor false p) = true)
+    (rest : Bytes) :
+    parseN progs.length ((progs.map (fun p => (serveOne minor false p).out)).flatten ++ rest) =
+      some (progs.map (fun p => view (serveOne minor false p)), rest) ∧
+    ∀ p ∈ progs, (serveOne minor false p).markedClose = false := by
+  induction progs with
+  | nil => simp [parseN]
+  | cons p ps ih =>
+    have hp0 := hp p (by simp)
+    have hps : ∀ q ∈ ps, _ := fun q hq => hp q (by simp [hq])
+    have rt := C15_response_roundtrip minor hm false p hp0.1 hp0.2.1
+    have ih' := ih hps
+    refine ⟨?_, ?_⟩
+    · simp only [List.map_cons, List.flatten_cons, List.length_cons, parseN, List.append_assoc]
+      rw [rt.1 hp0.2.2]
+      dsimp only
+      rw [ih'.1]
+      simp
+    · intro q hq
+      simp only [List.mem_cons] at hq
+      rcases hq with rfl | hq
+      · rw [rt.2.2.1, hp0.2.2]; rfl
+      · exact ih'.2 q hq
+
+/-! ## the pinned codec -/
+
+def bCL : Bytes := [51]                 -- "3"
+def bBody : Bytes := [97, 98, 99]       -- "abc"
+
+/-- a handler that calls Flush: the pinned writer finished the response there (status 200 instead
+    of the 500 set afterwards, the body lost) and the adapter's own deferred Flush dereferenced nil -/
+theorem C15_pinned_flush_finishes :
+    let w := serveOnePinned 1 false [.setHeader sCL bCL, .flush, .writeHeader 500, .write bBody]
+    (w.status, w.body, w.crashed) = (200, [], true) ∧
+    (let w' := serveOne 1 false [.setHeader sCL bCL, .flush, .writeHeader 500, .write bBody]
+     (w'.status, w'.body, w'.crashed) = (200, bBody, false)) ∧
+    (serveOnePinned 1 false [.flush]).crashed = true ∧ (serveOne 1 false [.flush, .flush]).crashed = false := by decide
+
+/-- chunked framing sent to an HTTP/1.0 client: the standard parser reads the framing as body -/
+theorem C15_pinned_chunked_to_http10 :
+    (parseResp (serveOnePinned 0 false [.setHeader sTE sChunked, .write [101]]).out).map (fun r => r.1.body) =
+      some [49, 13, 10, 101, 13, 10, 48, 13, 10, 13, 10] ∧
+    (parseResp (serveOne 0 false [.setHeader sTE sChunked, .write [101]]).out).map (fun r => r.1.body) = some [101] := by decide +kernel
+
+/-- non-vacuity: a chunked response and a Content-Length response meet the hypotheses and parse in sequence -/
+example : (parseN 2 ((serveOne 1 false [.setHeader sTE sChunked, .write [104, 105], .flush, .write [33]]).out ++
+      (serveOne 1 false [.setHeader sCL bCL, .writeHeader 404, .write bBody]).out)).map
+        (fun r => (r.1.map (fun x => (x.status, x.body)), r.2)) = some ([(200, [104, 105, 33]), (404, bBody)], []) := by decide +kernel
+
 end NettyVerif.C15
 
 #print axioms NettyVerif.C15.C15_requests_aligned
 #print axioms NettyVerif.C15.C15_pinned_unread_body_misaligns
+#print axioms NettyVerif.C15.C15_response_roundtrip
+#print axioms NettyVerif.C15.C15_body_is_what_was_written
+#print axioms NettyVerif.C15.C15_flush_transparent
+#print axioms NettyVerif.C15.C15_pipelined_in_order
+#print axioms NettyVerif.C15.C15_pinned_flush_finishes
+#print axioms NettyVerif.C15.C15_pinned_chunked_to_http10
